@@ -49,8 +49,9 @@ class VdiModel(Model):
                                                     z3.And(self.MAP(K) >= -2, z3.Implies(self.MAP(K) >= 0, self.data_offset + (self.MAP(K) + 1) * self.bs <= self.fsize))))]
 
     def guest_def(self, x):  # SPEC (VDICore.h)
-        m = self.MAP(x / self.bs)
-        return z3.If(m == -1, z3.If(self.has_parent, self.PG(x), 0), z3.If(m == -2, 0, z3.Select(self.farr, self.data_offset + m * self.bs + x % self.bs)))
+        q, r, fact = ediv(x, self.bs)
+        m = self.MAP(q)
+        return z3.If(m == -1, z3.If(self.has_parent, self.PG(x), 0), z3.If(m == -2, 0, z3.Select(self.farr, self.data_offset + m * self.bs + r))), [fact]
 
     def map_getitem(self, eng, st, idx, node):
         i = eng.as_int(idx, st, node)
